@@ -1,1 +1,6 @@
+import Got.Model.TaskQ
 /- property theorems of C09 (only theorems + non-vacuity examples live here) -/
+open Got.Model.TaskQ
+
+/-- taskEmpty.Get2 never blocks and returns (nil, nil), in every state. -/
+theorem C09_empty_task_complete (s : State) : get2 s .empty = some nilPair := rfl
